@@ -2,6 +2,7 @@
   C15 — control messages: all-or-nothing acceptance and a complete, ordered error list.
 -/
 import Rl2tp.Proofs.Records
+import Rl2tp.Proofs.ControlInv
 namespace Rl2tp.C15
 
 /-- a record is well delimited when it has a header and its 10-bit length is its own size -/
@@ -28,21 +29,63 @@ theorem body_results (recs : List Bytes) (h : ∀ r ∈ recs, WellDelimited r) :
     rw [greedy_record_cons a b c d e f p recs.flatten hl, ih (fun x hx => h x (by simp [hx]))]
     rfl
 
-/-- the octets of a control message with flag word 0x1320, these ids, and this body -/
-def message (tid sid ns nr : UInt16) (body : Bytes) : Bytes :=
-  0x13 :: 0x20 :: (be16 (UInt16.ofNat (12 + body.length)) ++ be16 tid ++ be16 sid ++ be16 ns ++ be16 nr ++ (body ++ []))
+/-- … and 1 to 5 octets behind the last record (fewer than an AVP header) end the list silently: they yield no entry,
+    no error, and are left unread -/
+theorem body_results_junk (recs : List Bytes) (h : ∀ r ∈ recs, WellDelimited r) (junk : Bytes) (hj : junk.length < 6) :
+    (greedy : M Bytes DErr (List Res)) (recs.flatten ++ junk) = .ok (recs.map resultOf) junk := by
+  induction recs with
+  | nil => simpa using greedy_short hj
+  | cons r recs ih =>
+    obtain ⟨a, b, c, d, e, f, p, rfl, hl⟩ := h r (by simp)
+    simp only [List.flatten_cons, List.cons_append, List.map_cons, resultOf, List.append_assoc]
+    rw [greedy_record_cons a b c d e f p (recs.flatten ++ junk) hl, ih (fun x hx => h x (by simp [hx]))]
+    rfl
 
-/-- Decoding a control message assembled from well-delimited records, under any options: the outcome
-    is a function of the per-record results, in wire order. -/
-theorem decode_message (o : Opts) (tid sid ns nr : UInt16) (recs : List Bytes) (h : ∀ r ∈ recs, WellDelimited r)
-    (hsize : 12 + recs.flatten.length ≤ 65535) :
-    (decode o : M Bytes (List DErr) Msg) (message tid sid ns nr recs.flatten) =
-      finishControl (UInt16.ofNat (12 + recs.flatten.length)) tid sid ns nr (recs.map resultOf) [] := by
-  unfold message
+/-- the flag words the options let through as a control message: T, L and S set; version 2, reserved bits clear,
+    P and O clear — each only when its check is switched on.  (`0x1320` satisfies it for every option set.) -/
+def FlagsOk (o : Opts) (w : UInt16) : Prop :=
+  isControl w = true ∧ hasLength w = true ∧ hasNsNr w = true ∧
+    (o.version = true → version w = 2) ∧ (o.reserved = true → reservedOk w = true) ∧
+    (o.unused = true → isPrioritized w = false) ∧ (o.unused = true → hasOffset w = false)
+
+theorem flagsOk_1320 (o : Opts) : FlagsOk o (word16 0x13 0x20) := by
   have hw : word16 0x13 0x20 = 0x1320 := by decide
-  exact decode_control_body o 0x13 0x20 _ tid sid ns nr recs.flatten [] (by rw [hw]; decide) (by rw [hw]; decide)
-    (by rw [hw]; decide) (fun _ => by rw [hw]; decide) (fun _ => by rw [hw]; decide) (fun _ => by rw [hw]; decide)
-    (fun _ => by rw [hw]; decide) (u16_small (by omega)) _ [] (body_results recs h)
+  rw [hw]
+  exact ⟨by decide, by decide, by decide, fun _ => by decide, fun _ => by decide, fun _ => by decide, fun _ => by decide⟩
+
+/-- the octets of a control message with flag octets `x y`, these ids, this body (which the Length field covers
+    exactly), followed by `rest` (which it does not) -/
+def messageW (x y : UInt8) (tid sid ns nr : UInt16) (body rest : Bytes) : Bytes :=
+  x :: y :: (be16 (UInt16.ofNat (12 + body.length)) ++ be16 tid ++ be16 sid ++ be16 ns ++ be16 nr ++ (body ++ rest))
+
+/-- **Any** acceptable flag word, any ids, a body made of well-delimited records plus at most five stray octets,
+    anything behind the message: the outcome is `finishControl` of the per-record results in wire order, and the
+    reader stands at `rest`. -/
+theorem decode_messageW (o : Opts) (x y : UInt8) (hw : FlagsOk o (word16 x y)) (tid sid ns nr : UInt16)
+    (recs : List Bytes) (h : ∀ r ∈ recs, WellDelimited r) (junk : Bytes) (hj : junk.length < 6) (rest : Bytes)
+    (hsize : 12 + (recs.flatten ++ junk).length ≤ 65535) :
+    (decode o : M Bytes (List DErr) Msg) (messageW x y tid sid ns nr (recs.flatten ++ junk) rest) =
+      finishControl (UInt16.ofNat (12 + (recs.flatten ++ junk).length)) tid sid ns nr (recs.map resultOf) rest := by
+  obtain ⟨hT, hL, hS, hV, hR, hP, hO⟩ := hw
+  unfold messageW
+  exact decode_control_body o x y _ tid sid ns nr (recs.flatten ++ junk) rest hT hL hS hV hR hP hO
+    (u16_small (by omega)) _ junk (body_results_junk recs h junk hj)
+
+/-- the value a list of results stands for when all of them are values -/
+theorem finishControl_ok_iff (len tid sid ns nr : UInt16) (rs : List Res) (rest : Bytes) :
+    (∃ m r, finishControl len tid sid ns nr rs rest = .ok m r) ↔ (resErrors rs = [] ∧ firstBad rs = false) := by
+  unfold finishControl
+  constructor
+  · rintro ⟨m, r, hm⟩
+    by_cases hf : firstBad rs = true
+    · rw [if_pos hf] at hm; cases hm
+    · rw [if_neg hf] at hm
+      by_cases he : resErrors rs ≠ []
+      · rw [if_pos he] at hm; cases hm
+      · exact ⟨by simpa using he, by simpa using hf⟩
+  · rintro ⟨he, hf⟩
+    rw [if_neg (by simp [hf]), if_neg (by simp [he])]
+    exact ⟨_, _, rfl⟩
 
 theorem resErrors_nil_iff (rs : List Res) : resErrors rs = [] ↔ ∀ r ∈ rs, isOk r = true := by
   induction rs with
@@ -52,41 +95,77 @@ theorem resErrors_nil_iff (rs : List Res) : resErrors rs = [] ↔ ∀ r ∈ rs, 
     | ok a => simp only [resErrors, List.filterMap_cons, List.mem_cons, forall_eq_or_imp, isOk, true_and]; exact ih
     | error e => simp [resErrors, isOk]
 
-/-- accepted **iff** every record decodes (none vendor-specific, none undecodable) and the first one,
-    when there is one, passes the first-AVP rule; a body with no AVP (ZLB) is accepted -/
-theorem control_accepts_iff (o : Opts) (tid sid ns nr : UInt16) (recs : List Bytes) (h : ∀ r ∈ recs, WellDelimited r)
-    (hsize : 12 + recs.flatten.length ≤ 65535) :
-    (∃ m r, (decode o : M Bytes (List DErr) Msg) (message tid sid ns nr recs.flatten) = .ok m r) ↔
+/-- accepted **iff** every record decodes (none vendor-specific, none undecodable) and the first one, when there is
+    one, passes the first-AVP rule — for every acceptable flag word, with or without stray octets, whatever follows -/
+theorem control_accepts_iff_general (o : Opts) (x y : UInt8) (hw : FlagsOk o (word16 x y)) (tid sid ns nr : UInt16)
+    (recs : List Bytes) (h : ∀ r ∈ recs, WellDelimited r) (junk : Bytes) (hj : junk.length < 6) (rest : Bytes)
+    (hsize : 12 + (recs.flatten ++ junk).length ≤ 65535) :
+    (∃ m r, (decode o : M Bytes (List DErr) Msg) (messageW x y tid sid ns nr (recs.flatten ++ junk) rest) = .ok m r) ↔
       ((∀ r ∈ recs, isOk (resultOf r) = true) ∧ firstBad (recs.map resultOf) = false) := by
-  rw [decode_message o tid sid ns nr recs h hsize]
-  unfold finishControl
-  have hiff := resErrors_nil_iff (recs.map resultOf)
+  rw [decode_messageW o x y hw tid sid ns nr recs h junk hj rest hsize, finishControl_ok_iff, resErrors_nil_iff]
   constructor
-  · rintro ⟨m, r, hm⟩
-    by_cases hf : firstBad (recs.map resultOf) = true
-    · rw [if_pos hf] at hm; cases hm
-    · rw [if_neg hf] at hm
-      by_cases he : resErrors (recs.map resultOf) ≠ []
-      · rw [if_pos he] at hm; cases hm
-      · have he' : resErrors (recs.map resultOf) = [] := by simpa using he
-        refine ⟨?_, by simpa using hf⟩
-        intro r hr
-        exact hiff.mp he' (resultOf r) (List.mem_map_of_mem hr)
   · rintro ⟨hall, hf⟩
-    have he : resErrors (recs.map resultOf) = [] := by
-      apply hiff.mpr
-      intro x hx
-      obtain ⟨r, hr, rfl⟩ := List.mem_map.mp hx
-      exact hall r hr
-    rw [if_neg (by simp [hf]), if_neg (by simp [he])]
-    exact ⟨_, _, rfl⟩
+    exact ⟨fun r hr => hall _ (List.mem_map_of_mem hr), hf⟩
+  · rintro ⟨hall, hf⟩
+    refine ⟨fun x hx => ?_, hf⟩
+    obtain ⟨r, hr, rfl⟩ := List.mem_map.mp hx
+    exact hall r hr
 
-/-- on rejection nothing partial is returned and the error list is not empty; when the first AVP passes
-    the first-AVP rule the list is exactly the errors of the undecodable records, in wire order -/
-theorem control_error_list (o : Opts) (tid sid ns nr : UInt16) (recs : List Bytes) (h : ∀ r ∈ recs, WellDelimited r)
-    (hsize : 12 + recs.flatten.length ≤ 65535) (hf : firstBad (recs.map resultOf) = false)
+/-- all results are values and the first passes the first-AVP rule: then the first *is* a Message Type AVP -/
+theorem first_is_messageType (rs : List Res) (hall : ∀ r ∈ rs, isOk r = true) (hf : firstBad rs = false) :
+    rs = [] ∨ ∃ t tl, rs = .ok (.messageType t) :: tl := by
+  cases rs with
+  | nil => exact .inl rfl
+  | cons r tl =>
+    right
+    have hr := hall r (by simp)
+    cases r with
+    | error e => simp [isOk] at hr
+    | ok a =>
+      cases a <;> simp [firstBad, firstOk] at hf
+      exact ⟨_, _, rfl⟩
+
+/-- what is accepted: the message with exactly the records' values, in wire order, nothing else; its first AVP (when
+    there is one) is a Message Type AVP; the reader stands behind the declared length -/
+theorem control_accepted_value (o : Opts) (x y : UInt8) (hw : FlagsOk o (word16 x y)) (tid sid ns nr : UInt16)
+    (recs : List Bytes) (h : ∀ r ∈ recs, WellDelimited r) (junk : Bytes) (hj : junk.length < 6) (rest : Bytes)
+    (hsize : 12 + (recs.flatten ++ junk).length ≤ 65535)
+    (hall : ∀ r ∈ recs, isOk (resultOf r) = true) (hf : firstBad (recs.map resultOf) = false) :
+    (decode o : M Bytes (List DErr) Msg) (messageW x y tid sid ns nr (recs.flatten ++ junk) rest) =
+        .ok (.control { length := UInt16.ofNat (12 + (recs.flatten ++ junk).length), tunnelId := tid, sessionId := sid,
+                        ns := ns, nr := nr, avps := resValues (recs.map resultOf) }) rest ∧
+      (resValues (recs.map resultOf)).length = recs.length ∧
+      (recs = [] ∨ ∃ t tl, recs.map resultOf = .ok (.messageType t) :: tl) := by
+  have hall' : ∀ r ∈ recs.map resultOf, isOk r = true := by
+    intro x hx; obtain ⟨r, hr, rfl⟩ := List.mem_map.mp hx; exact hall r hr
+  have he : resErrors (recs.map resultOf) = [] := (resErrors_nil_iff _).mpr hall'
+  refine ⟨?_, ?_, ?_⟩
+  · rw [decode_messageW o x y hw tid sid ns nr recs h junk hj rest hsize]
+    unfold finishControl
+    rw [if_neg (by simp [hf]), if_neg (by simp [he])]
+  · clear he hf hsize h hall
+    induction recs with
+    | nil => rfl
+    | cons r recs ih =>
+      have h1 := hall' (resultOf r) (by simp)
+      cases hr : resultOf r with
+      | error e => rw [hr] at h1; simp [isOk] at h1
+      | ok a =>
+        simp only [List.map_cons, hr, resValues, List.filterMap_cons, List.length_cons]
+        have := ih (fun x hx => hall' x (by simp only [List.map_cons, List.mem_cons]; exact .inr hx))
+        simpa [resValues] using this
+  · rcases first_is_messageType _ hall' hf with h0 | ⟨t, tl, ht⟩
+    · left; simpa using h0
+    · exact .inr ⟨t, tl, ht⟩
+
+/-- on rejection nothing partial is returned and the error list is not empty; when the first AVP passes the first-AVP
+    rule the list is exactly the errors of the undecodable records, in wire order — one per undecodable record -/
+theorem control_error_list_general (o : Opts) (x y : UInt8) (hw : FlagsOk o (word16 x y)) (tid sid ns nr : UInt16)
+    (recs : List Bytes) (h : ∀ r ∈ recs, WellDelimited r) (junk : Bytes) (hj : junk.length < 6) (rest : Bytes)
+    (hsize : 12 + (recs.flatten ++ junk).length ≤ 65535) (hf : firstBad (recs.map resultOf) = false)
     (hbad : ∃ r ∈ recs, isOk (resultOf r) = false) :
-    (decode o : M Bytes (List DErr) Msg) (message tid sid ns nr recs.flatten) = .err (resErrors (recs.map resultOf)) [] ∧
+    (decode o : M Bytes (List DErr) Msg) (messageW x y tid sid ns nr (recs.flatten ++ junk) rest) =
+        .err (resErrors (recs.map resultOf)) rest ∧
       resErrors (recs.map resultOf) ≠ [] ∧
       (resErrors (recs.map resultOf)).length = (recs.filter fun r => !isOk (resultOf r)).length := by
   have hne : resErrors (recs.map resultOf) ≠ [] := by
@@ -95,7 +174,7 @@ theorem control_error_list (o : Opts) (tid sid ns nr : UInt16) (recs : List Byte
     have := (resErrors_nil_iff _).mp he (resultOf r) (List.mem_map_of_mem hr)
     rw [hb] at this; cases this
   refine ⟨?_, hne, ?_⟩
-  · rw [decode_message o tid sid ns nr recs h hsize]
+  · rw [decode_messageW o x y hw tid sid ns nr recs h junk hj rest hsize]
     unfold finishControl
     rw [if_neg (by simp [hf]), if_pos hne]
   · clear hne hbad hf hsize h
@@ -107,27 +186,21 @@ theorem control_error_list (o : Opts) (tid sid ns nr : UInt16) (recs : List Byte
       | error e => simp [resErrors, isOk, hr] at ih ⊢; exact ih
 
 /-- when the first AVP is not (even a malformed) Message Type the whole message is refused as such -/
-theorem control_first_rule (o : Opts) (tid sid ns nr : UInt16) (recs : List Bytes) (h : ∀ r ∈ recs, WellDelimited r)
-    (hsize : 12 + recs.flatten.length ≤ 65535) (hf : firstBad (recs.map resultOf) = true) :
-    (decode o : M Bytes (List DErr) Msg) (message tid sid ns nr recs.flatten) = .err [.controlMessageTypeNotFirst] [] := by
-  rw [decode_message o tid sid ns nr recs h hsize]
+theorem control_first_rule_general (o : Opts) (x y : UInt8) (hw : FlagsOk o (word16 x y)) (tid sid ns nr : UInt16)
+    (recs : List Bytes) (h : ∀ r ∈ recs, WellDelimited r) (junk : Bytes) (hj : junk.length < 6) (rest : Bytes)
+    (hsize : 12 + (recs.flatten ++ junk).length ≤ 65535) (hf : firstBad (recs.map resultOf) = true) :
+    (decode o : M Bytes (List DErr) Msg) (messageW x y tid sid ns nr (recs.flatten ++ junk) rest) =
+      .err [.controlMessageTypeNotFirst] rest := by
+  rw [decode_messageW o x y hw tid sid ns nr recs h junk hj rest hsize]
   unfold finishControl
   rw [if_pos hf]
-
-/-- a ZLB (no AVP at all) is accepted -/
-theorem zlb_accepted (o : Opts) (tid sid ns nr : UInt16) :
-    (decode o : M Bytes (List DErr) Msg) (message tid sid ns nr []) =
-      .ok (.control { length := 12, tunnelId := tid, sessionId := sid, ns := ns, nr := nr, avps := [] }) [] := by
-  have := decode_message o tid sid ns nr [] (fun r hr => by simp at hr) (by simp)
-  simpa [finishControl, firstBad, resErrors, resValues] using this
 
 /-- parsing stops only at a record whose length field is unusable: it contributes one error and ends the list -/
 theorem stops_only_at_bad_length (recs : List Bytes) (h : ∀ r ∈ recs, WellDelimited r)
     (a b c d e f : UInt8) (tail : Bytes) (hb : hdrLen a b < 6 ∨ hdrLen a b - 6 > tail.length) :
-    ∃ l, (greedy : M Bytes DErr (List Res)) (recs.flatten ++ a :: b :: c :: d :: e :: f :: tail) =
-      .ok (recs.map resultOf ++ [.error (.invalidAVPLength l)]) tail := by
-  obtain ⟨l, hl⟩ := greedy_bad_length a b c d e f tail hb
-  refine ⟨l, ?_⟩
+    (greedy : M Bytes DErr (List Res)) (recs.flatten ++ a :: b :: c :: d :: e :: f :: tail) =
+      .ok (recs.map resultOf ++ [.error (.invalidAVPLength (badLen a b))]) tail := by
+  have hl := greedy_bad_length_eq a b c d e f tail hb
   induction recs with
   | nil => simpa using hl
   | cons r recs ih =>
@@ -136,9 +209,135 @@ theorem stops_only_at_bad_length (recs : List Bytes) (h : ∀ r ∈ recs, WellDe
     rw [greedy_record_cons a' b' c' d' e' f' p _ hlen, ih (fun x hx => h x (by simp [hx]))]
     rfl
 
+theorem resErrors_append (xs ys : List Res) : resErrors (xs ++ ys) = resErrors xs ++ resErrors ys := by
+  simp [resErrors]
+
+theorem firstBad_append_of_ne_nil (xs ys : List Res) (h : xs ≠ []) : firstBad (xs ++ ys) = firstBad xs := by
+  cases xs with
+  | nil => exact absurd rfl h
+  | cons x xs => rfl
+
+/-- … and the message that contains such a record is **always rejected**: with records in front of it whose first
+    passes the first-AVP rule, the error list is the errors of the undecodable records in wire order followed by the
+    `InvalidAVPLength` of the unusable one (carrying its length field); nothing behind the unusable record is looked at -/
+theorem control_bad_length_rejected (o : Opts) (x y : UInt8) (hw : FlagsOk o (word16 x y)) (tid sid ns nr : UInt16)
+    (recs : List Bytes) (h : ∀ r ∈ recs, WellDelimited r) (a b c d e f : UInt8) (tail rest : Bytes)
+    (hb : hdrLen a b < 6 ∨ hdrLen a b - 6 > tail.length)
+    (hsize : 12 + (recs.flatten ++ a :: b :: c :: d :: e :: f :: tail).length ≤ 65535) :
+    (decode o : M Bytes (List DErr) Msg)
+        (messageW x y tid sid ns nr (recs.flatten ++ a :: b :: c :: d :: e :: f :: tail) rest) =
+      (if recs = [] ∨ firstBad (recs.map resultOf) = true then .err [.controlMessageTypeNotFirst] rest
+       else .err (resErrors (recs.map resultOf) ++ [.invalidAVPLength (badLen a b)]) rest) := by
+  obtain ⟨hT, hL, hS, hV, hR, hP, hO⟩ := hw
+  unfold messageW
+  rw [decode_control_body o x y _ tid sid ns nr _ rest hT hL hS hV hR hP hO (u16_small (by omega)) _ tail
+    (stops_only_at_bad_length recs h a b c d e f tail hb)]
+  unfold finishControl
+  by_cases h0 : recs = []
+  · subst h0
+    simp [firstBad, firstOk]
+  · have hm : recs.map resultOf ≠ [] := by simpa using h0
+    rw [firstBad_append_of_ne_nil _ _ hm, resErrors_append]
+    by_cases hf : firstBad (recs.map resultOf) = true
+    · simp [hf]
+    · simp [h0, hf, resErrors]
+
+/-! ### the same for the canonical flag word `0x1320`, no stray octets, nothing behind the message -/
+
+/-- the octets of a control message with flag word 0x1320, these ids, and this body -/
+def message (tid sid ns nr : UInt16) (body : Bytes) : Bytes :=
+  0x13 :: 0x20 :: (be16 (UInt16.ofNat (12 + body.length)) ++ be16 tid ++ be16 sid ++ be16 ns ++ be16 nr ++ (body ++ []))
+
+theorem message_eq (tid sid ns nr : UInt16) (body : Bytes) :
+    message tid sid ns nr body = messageW 0x13 0x20 tid sid ns nr (body ++ []) [] := by
+  simp [message, messageW]
+
+/-- Decoding a control message assembled from well-delimited records, under any options: the outcome
+    is a function of the per-record results, in wire order. -/
+theorem decode_message (o : Opts) (tid sid ns nr : UInt16) (recs : List Bytes) (h : ∀ r ∈ recs, WellDelimited r)
+    (hsize : 12 + recs.flatten.length ≤ 65535) :
+    (decode o : M Bytes (List DErr) Msg) (message tid sid ns nr recs.flatten) =
+      finishControl (UInt16.ofNat (12 + recs.flatten.length)) tid sid ns nr (recs.map resultOf) [] := by
+  rw [message_eq]
+  have := decode_messageW o 0x13 0x20 (flagsOk_1320 o) tid sid ns nr recs h [] (by simp) [] (by simpa using hsize)
+  simpa using this
+
+theorem control_accepts_iff (o : Opts) (tid sid ns nr : UInt16) (recs : List Bytes) (h : ∀ r ∈ recs, WellDelimited r)
+    (hsize : 12 + recs.flatten.length ≤ 65535) :
+    (∃ m r, (decode o : M Bytes (List DErr) Msg) (message tid sid ns nr recs.flatten) = .ok m r) ↔
+      ((∀ r ∈ recs, isOk (resultOf r) = true) ∧ firstBad (recs.map resultOf) = false) := by
+  rw [message_eq]
+  exact control_accepts_iff_general o 0x13 0x20 (flagsOk_1320 o) tid sid ns nr recs h [] (by simp) []
+    (by simpa using hsize)
+
+theorem control_error_list (o : Opts) (tid sid ns nr : UInt16) (recs : List Bytes) (h : ∀ r ∈ recs, WellDelimited r)
+    (hsize : 12 + recs.flatten.length ≤ 65535) (hf : firstBad (recs.map resultOf) = false)
+    (hbad : ∃ r ∈ recs, isOk (resultOf r) = false) :
+    (decode o : M Bytes (List DErr) Msg) (message tid sid ns nr recs.flatten) = .err (resErrors (recs.map resultOf)) [] ∧
+      resErrors (recs.map resultOf) ≠ [] ∧
+      (resErrors (recs.map resultOf)).length = (recs.filter fun r => !isOk (resultOf r)).length := by
+  rw [message_eq]
+  exact control_error_list_general o 0x13 0x20 (flagsOk_1320 o) tid sid ns nr recs h [] (by simp) []
+    (by simpa using hsize) hf hbad
+
+theorem control_first_rule (o : Opts) (tid sid ns nr : UInt16) (recs : List Bytes) (h : ∀ r ∈ recs, WellDelimited r)
+    (hsize : 12 + recs.flatten.length ≤ 65535) (hf : firstBad (recs.map resultOf) = true) :
+    (decode o : M Bytes (List DErr) Msg) (message tid sid ns nr recs.flatten) = .err [.controlMessageTypeNotFirst] [] := by
+  rw [message_eq]
+  exact control_first_rule_general o 0x13 0x20 (flagsOk_1320 o) tid sid ns nr recs h [] (by simp) []
+    (by simpa using hsize) hf
+
+/-- a ZLB (no AVP at all) is accepted -/
+theorem zlb_accepted (o : Opts) (tid sid ns nr : UInt16) :
+    (decode o : M Bytes (List DErr) Msg) (message tid sid ns nr []) =
+      .ok (.control { length := 12, tunnelId := tid, sessionId := sid, ns := ns, nr := nr, avps := [] }) [] := by
+  have := decode_message o tid sid ns nr [] (fun r hr => by simp at hr) (by simp)
+  simpa [finishControl, firstBad, resErrors, resValues] using this
+
+/-! ### "accepted only if", for an arbitrary input (no assumption on how it was built) -/
+
+/-- **Whatever the octets**: if the decoder accepts them as a control message then the Length field `L` lies between 12
+    and the input's size, the reader is left exactly at octet `L`, and the `L − 12` octets after the header are a list
+    of AVP records (in the specification's reading, `Spec.avps`: element-wise a value, or `none` for a vendor-specific /
+    undecodable / unusable-length record) in which **every** record is a value and the first, when there is one, is a
+    Message Type AVP; the AVPs of the returned message are exactly these values, in wire order — nothing partial. -/
+theorem control_accepted_only_if (o : Opts) (b : Bytes) (c : Control) (r : Bytes)
+    (h : (decode o : M Bytes (List DErr) Msg) b = .ok (.control c) r) :
+    12 ≤ c.length.toNat ∧ c.length.toNat ≤ b.length ∧ r = b.drop c.length.toNat ∧
+      ∃ rs : List (Option AVP),
+        rs = Spec.avps (((b.drop 12).take (c.length.toNat - 12)).length + 1) ((b.drop 12).take (c.length.toNat - 12)) ∧
+        (∀ x ∈ rs, x.isSome = true) ∧ (rs = [] ∨ ∃ t tl, rs = some (.messageType t) :: tl) ∧
+        c.avps = rs.filterMap id := by
+  obtain ⟨h1, h2, h3, h4⟩ := control_accepted_inv o b c r h
+  obtain ⟨a1, a2, a3⟩ := acceptAvps_some _ _ h4
+  exact ⟨h1, h2, h3, _, rfl, a1, a2, a3⟩
+
+/-- whatever the octets and the options, a rejection carries at least one error and no value (`Out` has no constructor
+    that holds both), and the decoder never faults -/
+theorem control_rejection_nonempty (o : Opts) (b : Bytes) :
+    (∃ m r, (decode o : M Bytes (List DErr) Msg) b = .ok m r) ∨
+      (∃ es r, (decode o : M Bytes (List DErr) Msg) b = .err es r ∧ es ≠ []) := by
+  have hg := decode_good o b
+  cases hd : (decode o : M Bytes (List DErr) Msg) b with
+  | ok m r => exact .inl ⟨m, r, rfl⟩
+  | err es r => rw [hd] at hg; exact .inr ⟨es, r, rfl, hg⟩
+  | fault f => rw [hd] at hg; exact absurd hg (by simp [Good])
+
 /-! non-vacuity: one good Message Type record, one vendor-specific record -/
 example : WellDelimited [1, 8, 0, 0, 0, 0, 0, 6] := ⟨1, 8, 0, 0, 0, 0, [0, 6], rfl, by decide⟩
 example : resultOf [1, 8, 0, 0, 0, 0, 0, 6] = .ok (.messageType .hello) := by decide
 example : resultOf [1, 7, 0, 9, 0, 7, 0x61] = .error (.unsupportedVendorId 9) := by decide
+/-- a flag word with the P and O bits, reserved bits and version 15 is acceptable once the three checks are off … -/
+example : FlagsOk ⟨false, false, false⟩ (word16 0xFF 0xFF) := by
+  refine ⟨by decide, by decide, by decide, ?_, ?_, ?_, ?_⟩ <;> intro h <;> cases h
+/-- … and such a message, with three stray octets inside its Length and two octets behind it, is accepted with the one AVP -/
+example : (decode ⟨false, false, false⟩ : M Bytes (List DErr) Msg)
+      (messageW 0xFF 0xFF 1 2 3 4 ([[1, 8, 0, 0, 0, 0, 0, 6]].flatten ++ [9, 9, 9]) [0xAA, 0xBB]) =
+    .ok (.control { length := 23, tunnelId := 1, sessionId := 2, ns := 3, nr := 4, avps := [.messageType .hello] })
+      [0xAA, 0xBB] := by decide
+/-- a record with an unusable length (5) behind a good one: rejected, the error carries the field -/
+example : (decode Opts.strict : M Bytes (List DErr) Msg)
+      (messageW 0x13 0x20 1 2 3 4 ([[1, 8, 0, 0, 0, 0, 0, 6]].flatten ++ [0, 5, 0, 0, 0, 7, 1, 2]) []) =
+    .err [.invalidAVPLength 5] [] := by decide
 
 end Rl2tp.C15
